@@ -147,7 +147,9 @@ FUNCS = {
     "nano_decode": Func(model=lambda m, a: m.call("nano_decode", a[0]), impl=lambda a: NanoAddrDecoder.DecodeAddr(a[0])),
     "nim_encode": Func(model=lambda m, a: m.call("nim_encode", a[0]), impl=lambda a: NimAddrEncoder.EncodeKey(a[0]),
                        direct=lambda a: expect(NimAddrDecoder.DecodeAddr(NimAddrEncoder.EncodeKey(a[0])),
-                                               hashlib.blake2b(a[0], digest_size=32).digest()[:20], "NIM")),
+                                               hashlib.blake2b(a[0], digest_size=32).digest()[:20], "NIM")
+                       or (None if NimAddrEncoder.EncodeKey(a[0]) == ref_nim(a[0]) else
+                           "NIM address %r is not the scheme's %r" % (NimAddrEncoder.EncodeKey(a[0]), ref_nim(a[0])))),
     "nim_decode": Func(model=lambda m, a: m.call("nim_decode", a[0]), impl=lambda a: NimAddrDecoder.DecodeAddr(a[0])),
     # [format, pub32]
     "substrate_encode": Func(model=lambda m, a: m.call("substrate_encode", a[0], a[1]),
@@ -297,6 +299,22 @@ def scalars(rng, n):
 
 
 
+def ref_nim(pub):
+    """Nimiq address from the scheme's definition: Base32 (Nimiq alphabet) of blake2b(pub)[:20], IBAN-style
+    MOD 97-10 check digits over <base32>NQ00, groups of four."""
+    import base64
+    h = hashlib.blake2b(pub, digest_size=32).digest()[:20]
+    std, alph = "ABCDEFGHIJKLMNOPQRSTUVWXYZ234567", "0123456789ABCDEFGHJKLMNPQRSTUVXY"
+    b32 = base64.b32encode(h).decode().translate(str.maketrans(std, alph))
+    digits = "".join(c if c.isdigit() else str(ord(c) - 55) for c in b32 + "NQ00")
+    t = "NQ%02d" % (98 - int(digits) % 97) + b32
+    return " ".join(t[i:i + 4] for i in range(0, len(t), 4))
+
+
+def nim_check_digits(pub):
+    return int(ref_nim(pub)[2:4])
+
+
 def zero_byte_checksum_keys(ctx):
     """Directed cases for the 1-in-256 class of bugs where a checksum / hash with a zero first or last byte is
     converted through an integer or stripped: public keys k*G (k = 1, 2, ...; generated by repeated addition)
@@ -348,6 +366,16 @@ def zero_byte_checksum_keys(ctx):
                 ctx.run(dec, a[:-1] + [r[1]] if fn in ("xlm_encode", "substrate_encode") else [r[1]], "zero-%s-byte" % side)
             if got["first"] >= per and got["last"] >= per:
                 break
+    # Nimiq: the boundary values of the two check digits (98, 97: remainder 0 and 1; 02..09: a leading zero digit)
+    want = {98: 0, 97: 0, 2: 0, 9: 0, 10: 0}
+    for e in eds:
+        cd = nim_check_digits(e)
+        if cd in want and want[cd] < per:
+            want[cd] += 1
+            found_total += 1
+            _, r = ctx.run("nim_encode", [e], "check-digits-%02d" % cd)
+            if r and r[0] == "ok":
+                ctx.run("nim_decode", [r[1]], "check-digits-%02d" % cd)
     ctx.dist["zero_byte_checksum_cases"] = found_total
 
 def mutate(s, rng):
